@@ -38,7 +38,7 @@ import (
 )
 
 func init() {
-	core.Register(&core.Pkg{
+	core.${REGFN:-Register}(&core.Pkg{
 		Name: "$pkg", SchemaName: "$schema", Config: "$config",
 		Compressed: $comp, Wrapper: $wrap, OpState: $opst, IgnoreShadow: $ish,
 		NewRoot:  func() ygot.GoStruct { return &Device{} },
@@ -51,7 +51,7 @@ EOR
 
 gen_corpus() {
   build_generator
-  local VT="$VERIF/schemas/vt.yang $VERIF/schemas/vt-aug.yang" VOC="$VERIF/schemas/voc.yang"
+  local VT="$VERIF/schemas/vt.yang $VERIF/schemas/vt-aug.yang" VOC="$VERIF/schemas/voc.yang" VK="$VERIF/schemas/vk.yang"
   gen_pkg vtus vt U-simple false false false false -generate_simple_unions -- $VT &
   gen_pkg vtuw vt U-wrapper false true false false -- $VT &
   gen_pkg vocus voc U-simple false false false false -generate_simple_unions -- $VOC &
@@ -60,13 +60,117 @@ gen_corpus() {
   gen_pkg voccw voc C-wrapper true true false false -compress_paths -- $VOC &
   gen_pkg vocco voc C-opstate true false true false -generate_simple_unions -compress_paths -prefer_operational_state -- $VOC &
   gen_pkg voccsh voc C-shadow true false false true -generate_simple_unions -compress_paths -ignore_shadow_schema_paths -- $VOC &
+  # auxiliary key corpus (C16): registered with core.RegisterAux, not part of core.Packages()
+  REGFN=RegisterAux gen_pkg vkus vk U-simple false false false false -generate_simple_unions -- $VK &
+  REGFN=RegisterAux gen_pkg vkuw vk U-wrapper false true false false -- $VK &
+  VEN_IMPORTS=""
+  ven_wanted && gen_ven
   wait
-  for p in vtus vtuw vocus vocuw voccs voccw vocco voccsh; do [ -s "$WORK/gen/$p/$p.go" ] || die "corpus package $p was not generated"; done
+  ven_wanted && gen_ven_finish
+  for p in vtus vtuw vocus vocuw voccs voccw vocco voccsh vkus vkuw; do [ -s "$WORK/gen/$p/$p.go" ] || die "corpus package $p was not generated"; done
   {
     echo "package main"; echo; echo "import ("
-    for p in vtus vtuw vocus vocuw voccs voccw vocco voccsh; do echo "	_ \"github.com/openconfig/ygot/zzverif/gen/$p\""; done
+    for p in vtus vtuw vocus vocuw voccs voccw vocco voccsh vkus vkuw $VEN_IMPORTS; do echo "	_ \"github.com/openconfig/ygot/zzverif/gen/$p\""; done
     echo ")"
   } > "$WORK/imports_gen.go"
+}
+
+# ---- C17: enum / identity naming corpus (schemas ven, venx-*, and the repo's testdata enum modules) ----------
+# These packages are registered with core.RegisterAux (harness/core/auxreg.go), i.e. they are NOT part of
+# core.Packages() and do not change the state spaces of the tree properties; C17 reads them with core.AuxPackages().
+# A generator rejection or (for the venx-* shapes) a Go compile failure is not an infrastructure error: it is
+# recorded in the generated package "venfail" (core.RegisterGenOutcome) and judged by C17.
+VEN_FLAGNAMES="-typedef_enum_with_defmod -shorten_enum_leaf_names -enum_suffix_for_simple_union_enums -trim_enum_openconfig_prefix"
+VEN_RISKY="venxfold venxunset venxdupid"
+
+# The ven corpus costs ~30 generator runs and 3 compile tests, so check.sh only builds it for the properties that
+# read it (ID is set by check.sh); devbuild.sh / replay.sh (no ID) always build it. VERIF_VEN=1|0 overrides.
+ven_wanted() {
+  case "${VERIF_VEN:-auto}" in 1|yes) return 0;; 0|no) return 1;; esac
+  case "${ID:-}" in ""|C17|C25|C26) return 0;; esac
+  return 1
+}
+
+# gen_pkg_soft <same arguments as gen_pkg>: like gen_pkg, but a generator failure is recorded, not fatal.
+gen_pkg_soft() {
+  local pkg=$1
+  mkdir -p "$WORK/genfail"
+  echo "$2|$3" > "$WORK/genfail/$pkg.meta"
+  if ( REGFN=RegisterAux gen_pkg "$@" ) 2>"$WORK/genfail/$pkg.err"; then
+    echo ok > "$WORK/genfail/$pkg.stage"
+  else
+    echo generator > "$WORK/genfail/$pkg.stage"
+    rm -rf "$WORK/gen/$pkg"
+  fi
+}
+
+ven_flags() { # $1 = 4 bits (defmod shorten suffix trim) -> generator flags
+  local bits=$1 i=0 f out=""
+  for f in $VEN_FLAGNAMES; do [ "${bits:$i:1}" = 1 ] && out="$out $f"; i=$((i+1)); done
+  echo $out
+}
+
+gen_ven() { # starts background jobs; the caller waits
+  rm -rf "$WORK/genfail"; mkdir -p "$WORK/genfail"
+  local VEN="$VERIF/schemas/ven.yang $VERIF/schemas/openconfig-vex.yang" RM="$REPO/testdata/modules" b
+  # compressed + simple unions: all 2^4 combinations of the enum naming flags (all four act in this mode)
+  for b in 0000 0001 0010 0011 0100 0101 0110 0111 1000 1001 1010 1011 1100 1101 1110 1111; do
+    gen_pkg_soft venc$b ven C-simple-$b true false false false -generate_simple_unions -compress_paths $(ven_flags $b) -- $VEN &
+  done
+  # uncompressed + simple unions: defmod x suffix (shorten / trim only act on compressed schemas)
+  for b in 0000 0010 1000 1010; do
+    gen_pkg_soft venu$b ven U-simple-$b false false false false -generate_simple_unions $(ven_flags $b) -- $VEN &
+  done
+  # wrapper unions (the suffix flag needs simple unions): defmod, uncompressed and compressed
+  for b in 0000 1000; do
+    gen_pkg_soft venw$b ven U-wrapper-$b false true false false $(ven_flags $b) -- $VEN &
+    gen_pkg_soft vencw$b ven C-wrapper-$b true true false false -compress_paths $(ven_flags $b) -- $VEN &
+  done
+  # shapes suspected to yield uncompilable Go: one module each, compile-tested in gen_ven_finish
+  gen_pkg_soft venxfold venx-fold U-simple false false false false -generate_simple_unions -- $VERIF/schemas/venx-fold.yang &
+  gen_pkg_soft venxunset venx-unset U-simple false false false false -generate_simple_unions -- $VERIF/schemas/venx-unset.yang &
+  gen_pkg_soft venxdupid venx-dupid U-simple false false false false -generate_simple_unions -- $VERIF/schemas/venx-dupid.yang $VERIF/schemas/venx-dupid-b.yang &
+  # the repo's own enum test modules
+  gen_pkg_soft venru venrepo-u U-simple false false false false -generate_simple_unions -path=$RM -- $RM/enum-module.yang $RM/enum-union.yang $RM/enum-list-uncompressed.yang &
+  gen_pkg_soft venrc venrepo-c C-simple-1111 true false false false -generate_simple_unions -compress_paths -path=$RM $(ven_flags 1111) -- $RM/openconfig-list-enum-key.yang $RM/openconfig-enumcamelcase.yang $RM/enum-module.yang $RM/enum-union.yang &
+}
+
+gen_ven_finish() { # after wait: compile-test the risky packages, write gen/venfail, set VEN_IMPORTS
+  local p st
+  make_overlay
+  for p in $VEN_RISKY; do
+    [ "$(cat "$WORK/genfail/$p.stage" 2>/dev/null)" = ok ] || continue
+    ( cd "$REPO" && $GO build -tags verif -overlay "$WORK/overlay.json" "./zzverif/gen/$p" ) >"$WORK/genfail/$p.err" 2>&1 || echo compile > "$WORK/genfail/$p.stage" &
+  done
+  wait
+  for p in $VEN_RISKY; do
+    if [ "$(cat "$WORK/genfail/$p.stage" 2>/dev/null)" = compile ]; then rm -rf "$WORK/genfail/$p.src"; mv "$WORK/gen/$p" "$WORK/genfail/$p.src"; fi
+  done
+  mkdir -p "$WORK/gen/venfail"
+  python3 - "$WORK" > "$WORK/gen/venfail/venfail.go" <<'EOP'
+import glob, json, os, sys
+work = sys.argv[1]
+print('// Package venfail records how generating / compiling each C17 corpus package went.')
+print('package venfail\n\nimport "github.com/openconfig/ygot/zzverif/core"\n\nfunc init() {')
+for f in sorted(glob.glob(os.path.join(work, 'genfail', '*.stage'))):
+    pkg = os.path.basename(f)[:-6]
+    stage = open(f).read().strip()
+    schema, config = (open(f[:-6] + '.meta').read().strip().split('|') + [''])[:2]
+    detail = ''
+    if stage != 'ok':
+        try:
+            detail = open(f[:-6] + '.err', errors='replace').read()
+        except OSError:
+            pass
+        detail = '\n'.join(l for l in detail.replace(work, '$WORK').splitlines() if l.strip())[-1500:]
+    print('\tcore.RegisterGenOutcome(core.GenOutcome{Pkg: %s, Schema: %s, Config: %s, Stage: %s, Detail: %s})' % tuple(json.dumps(x, ensure_ascii=True) for x in (pkg, schema, config, stage, detail)))
+print('}')
+EOP
+  VEN_IMPORTS=venfail
+  for st in "$WORK"/genfail/*.stage; do
+    p=$(basename "$st" .stage)
+    [ "$(cat "$st")" = ok ] && [ -s "$WORK/gen/$p/$p.go" ] && VEN_IMPORTS="$VEN_IMPORTS $p"
+  done
 }
 
 # make_overlay: writes $WORK/overlay.json mapping harness + generated files into $REPO/zzverif
